@@ -1,5 +1,6 @@
 import Hifi.Lemmas.EpochOrd
 import Hifi.Lemmas.Calendar
+import Hifi.Model.WeekdayAt
 /-
   C16  Epoch weekday is the civil weekday of its date; weekday arithmetic is mod 7.
   Weekdays are 0 = Monday … 6 = Sunday (the `u8` encoding of `Weekday`).
@@ -310,5 +311,83 @@ theorem next_spec (d : Dur) (w : Int) (hd : d.Canon) (hw : 0 ≤ w ∧ w ≤ 6) 
 -- non-vacuity: the 1972-01-01T23:59:56 UTC witness of the repaired defect now lands on a Wednesday of the UTC calendar
 example : (Ep.mk ⟨0, 2272147195999999997⟩ .UTC).previous 2 = some ⟨⟨0, 2271887995999999997⟩, .UTC⟩ ∧
     (Ep.mk ⟨0, 2271887995999999997⟩ .UTC).weekdayOwn = 2 := by decide
+
+
+/-! ### `next_weekday_at_midnight / _at_noon`, `previous_weekday_at_midnight / _at_noon` (Model/WeekdayAt.lean):
+    `next(w)` / `previous(w)` followed by `with_hms_strict(h, 0, 0)` — formerly covered by the correspondence run only -/
+
+/-- `with_hms_strict(h, 0, 0)`: the own-calendar midnight of the day that contains the epoch, plus h hours -/
+theorem withHmsStrictCal_spec (d : Dur) (ts : TS) (h : Int) (hd : d.Canon) (hr : Cal.InCal d.val)
+    (hh : 0 ≤ h ∧ h < 24) :
+    ∃ r, withHmsStrictCal d ts h = .ok r ∧ r.Canon ∧
+      r.val = d.val - (d.val + refOffsetNs ts.name) % 86400000000000 + h * 3600000000000 := by
+  obtain ⟨y, mo, dd, hh', mi, s, ns, e1, hv, hy1, hy2, k1, k2, k3, k4, k5, k6, k7, k8, hval⟩ :=
+    Cal.computeGregorian_spec d ts hd hr
+  have hv' := (Cal.validDate_iff _).mp hv
+  simp only at hv'
+  have hcore := Cal.validCore_of_valid y mo dd 0 0 0 0 hv (by omega) (by omega) (by omega) (by omega)
+  obtain ⟨mid, em, cm, vm⟩ := Cal.maybeFromGregorian_val y mo dd 0 0 0 0 ts ⟨hy1, hy2⟩ (by omega) (by omega)
+    (by omega) (by omega) (by omega) (by omega) hcore
+  obtain ⟨t, et, ct, vt⟩ := compose_spec 0 0 h 0 0 0 0 0
+  have hor := Cal.refOffset_range ts
+  unfold Cal.InCal at hr
+  unfold withHmsStrictCal
+  rw [e1]
+  simp only [em, et]
+  have ha := add_spec mid t cm ct
+  refine ⟨_, rfl, ha.1, ?_⟩
+  rw [ha.2, vm, vt]
+  simp only [show ¬ ((0:Int) < 0) by omega, if_false]
+  rw [clampD_mid (x := 1 * (0 * 86400000000000 + h * 3600000000000 + 0 * 60000000000 + 0 * 1000000000 + 0 * 1000000 + 0 * 1000 + 0)) (by omega) (by omega)]
+  rw [clampD_mid (by omega) (by omega)]
+  omega
+
+/-- **`next_weekday_at_midnight` (h = 0) / `next_weekday_at_noon` (h = 12)**, every time scale, before the reference as
+    well: the result is in the same scale, on the requested weekday of the epoch's OWN calendar, at h:00:00 of that
+    civil day, strictly later than the epoch and less than eight days later. -/
+theorem next_weekday_at_spec (d : Dur) (ts : TS) (w h : Int) (hd : d.Canon) (hw : 0 ≤ w ∧ w ≤ 6)
+    (hh : 0 ≤ h ∧ h < 24) (hlo : -94000000000000000000000 ≤ d.val) (hhi : d.val ≤ 93000000000000000000000) :
+    ∃ r, (Ep.mk d ts).nextWeekdayAt w h = .ok ⟨r, ts⟩ ∧ r.Canon ∧
+      ((r.val + refOffsetNs ts.name) / 86400000000000) % 7 = w ∧
+      (r.val + refOffsetNs ts.name) % 86400000000000 = h * 3600000000000 ∧
+      d.val < r.val ∧ r.val < d.val + 8 * 86400000000000 := by
+  have hg := Cal.gregOff_val ts
+  have hor := Cal.refOffset_range ts
+  obtain ⟨b, k, eb, cb, k1, k7, vb, wb⟩ := Hifi.C16.next_spec_own d ts w hd hw
+    (by unfold DMIN; simp only [NPCs_eq]; omega) (by rw [hg.2]; unfold DMAX; simp only [NPCs_eq]; omega)
+  have ebn : (Ep.mk d ts).nextOwn w = ⟨b, ts⟩ := by
+    unfold Ep.next at eb; exact Option.some.inj eb
+  rw [Hifi.C16.weekdayOwn_spec b ts cb (by rw [hg.2, vb]; unfold DMIN DMAX; simp only [NPCs_eq]; omega), hg.2] at wb
+  obtain ⟨r, er, cr, vr⟩ := withHmsStrictCal_spec b ts h cb (by unfold Cal.InCal; omega) hh
+  refine ⟨r, ?_, cr, ?_, ?_, ?_, ?_⟩
+  · unfold Ep.nextWeekdayAt; rw [ebn]; simp only [er, resEp]
+  all_goals (rw [vr]; omega)
+
+/-- **`previous_weekday_at_midnight` / `_at_noon`**: same scale, requested weekday of the own calendar, h:00:00 of that
+    civil day, strictly earlier than the epoch and less than eight days earlier. -/
+theorem previous_weekday_at_spec (d : Dur) (ts : TS) (w h : Int) (hd : d.Canon) (hw : 0 ≤ w ∧ w ≤ 6)
+    (hh : 0 ≤ h ∧ h < 24) (hlo : -93000000000000000000000 ≤ d.val) (hhi : d.val ≤ 94000000000000000000000) :
+    ∃ r, (Ep.mk d ts).previousWeekdayAt w h = .ok ⟨r, ts⟩ ∧ r.Canon ∧
+      ((r.val + refOffsetNs ts.name) / 86400000000000) % 7 = w ∧
+      (r.val + refOffsetNs ts.name) % 86400000000000 = h * 3600000000000 ∧
+      r.val < d.val ∧ d.val < r.val + 8 * 86400000000000 := by
+  have hg := Cal.gregOff_val ts
+  have hor := Cal.refOffset_range ts
+  obtain ⟨b, k, eb, cb, k1, k7, vb, wb⟩ := Hifi.C16.previous_spec_own d ts w hd hw
+    (by unfold DMIN; simp only [NPCs_eq]; omega) (by rw [hg.2]; unfold DMAX; simp only [NPCs_eq]; omega)
+  have ebn : (Ep.mk d ts).previousOwn w = ⟨b, ts⟩ := by
+    unfold Ep.previous at eb; exact Option.some.inj eb
+  rw [Hifi.C16.weekdayOwn_spec b ts cb (by rw [hg.2, vb]; unfold DMIN DMAX; simp only [NPCs_eq]; omega), hg.2] at wb
+  obtain ⟨r, er, cr, vr⟩ := withHmsStrictCal_spec b ts h cb (by unfold Cal.InCal; omega) hh
+  refine ⟨r, ?_, cr, ?_, ?_, ?_, ?_⟩
+  · unfold Ep.previousWeekdayAt; rw [ebn]; simp only [er, resEp]
+  all_goals (rw [vr]; omega)
+
+
+/-- the hypotheses are inhabited, before the GPST reference AND before 1900: Saturday 1899-12-30T16:59:41 on the GPST
+    calendar, next Monday at noon = 1900-01-01T12:00:00 -/
+example : (Ep.mk ⟨-1, 3155760000000000000 - 2524953619000000000 - 111600000000000⟩ .GPST).nextWeekdayAt 0 12
+    = .ok ⟨⟨-1, 3155760000000000000 - 2524953619000000000 - 111600000000000 + 154800000000000 + 19000000000⟩, .GPST⟩ := by
+  decide +kernel
 
 end Hifi.C16
